@@ -6,6 +6,11 @@ from harness.runner import Prop, Enumeration, held, failed, after_every_prelude,
 from props.c01 import effective_seg, compare_events
 
 
+# violations that the frame parser finds while parsing a read (header-level) as well as later ones
+TAIL_CLASSES = ["reserved_opcode", "reserved_bits", "fragmented_control", "control_too_long", "masked_frame",
+                "nothing_to_continue", "text_bad_utf8", "close_1_byte", "close_bad_utf8"]
+
+
 def ping_msg():
     return st.builds(lambda p, f: {"kind": "ping", "payload": p, "forms": [f]}, gen.control_payload(),
                      gen.weighted([(8, st.just(0)), (1, st.just(1))]))
@@ -122,6 +127,9 @@ class C14(Prop):
             # (Pongs must still go out uncompressed, with the Ping's payload)
             "deflate": gen.deflate_opt(),
             "cmask": st.integers(0, 255),
+            # optionally one protocol-violating frame right behind the conforming stream
+            "tail_violation": gen.weighted([(4, st.none()), (1, st.fixed_dictionaries({
+                "class": st.sampled_from(TAIL_CLASSES), "a": st.integers(0, 20), "b": st.integers(0, 20), "wide": st.booleans()}))]),
         })
 
     def enumerations(self, tier):
@@ -152,7 +160,11 @@ class C14(Prop):
              "close_at": None, "fault": None, "seg": "whole", "deflate": False, "cmask": 0},
         ]
         return [Enumeration("pong_before_reaction_all_single_preemptions", cases, exhaustive=True),
-                after_every_prelude(battery), with_noise(battery), with_companion(battery)]
+                after_every_prelude(battery), with_noise(battery), with_companion(battery),
+                Enumeration("pings_followed_by_every_kind_of_violating_frame",
+                            lambda: (dict(b, tail_violation={"class": c, "a": a, "b": 1, "wide": False}, seg=seg, deflate=d)
+                                     for b in battery for c in TAIL_CLASSES for a in (0, 1, 2)
+                                     for seg in ("whole", ["uniform", 7]) for d in (False, True)), exhaustive=True)]
 
     def scenario(self, case, fault_ordinal=None):
         msgs, deflater = case["msgs"], None
@@ -163,6 +175,13 @@ class C14(Prop):
                     for i, m in enumerate(msgs)]
             deflater = lambda payload, msg: peer.compress(payload)     # noqa: E731
         built = build.build_session(msgs, deflater)
+        tail = b""
+        if case.get("tail_violation"):
+            # the conforming stream is followed - possibly in the same read - by ONE frame that violates the
+            # protocol: every Ping before it has been received in full and must be answered as usual
+            from props.c04 import violating_frames
+            tail = violating_frames(dict(case["tail_violation"]), bool(case.get("deflate")))
+        built.data = bytes(built.data) + tail
         reply_len = len(httpref.build_reply(None, b""))
         seg = effective_seg(case["seg"], reply_len + len(built.data))
         reactions = list(case["sends"])
@@ -235,6 +254,9 @@ class C14(Prop):
             return failed("escaped_exception", tr.escaped, labels, nontrivial)
         # the stream is conforming: every message must arrive (C01), in particular every Ping
         got = [e for e in tr.events if e["name"] in ("text", "binary", "ping", "pong")]
+        if case.get("tail_violation"):
+            got = got[:len(built.expected)]       # what the client makes of the violating frame is C04's business
+            labels.add("violating_frame_after_the_pings")
         why = compare_events(got, built.expected)
         if why:
             return failed("event_stream_disturbed", why + " | events %s" % names, labels, nontrivial)
